@@ -39,13 +39,13 @@ Q03 = [("lifecycle", 24000), ("owning", 8000), ("handles", 6000), ("mailbox", 40
 Q04 = [("lifecycle", 30000), ("owning", 12000), ("mailbox", 6000), ("backpressure", 4000), ("timeout", 8000), ("restart", 4000), ("faults+faults", 250), ("lifecycle+faults", 250)]
 Q05 = [("handles", 24000), ("lifecycle", 12000), ("owning", 6000), ("mailbox", 4000), ("broker", 8000), ("stream", 6000), ("timers", 6000), ("tree", 8000)]
 Q12 = [("backpressure", 30000), ("mailbox", 10000), ("lifecycle", 4000)]
-Q17 = [("owning", 30000), ("lifecycle", 10000), ("mailbox", 4000), ("timeout", 8000)]
+Q17 = [("owning", 30000), ("lifecycle", 10000), ("mailbox", 4000), ("timeout", 8000), ("restart", 8000)]
 
 Q07 = [("restart", 30000), ("lifecycle", 12000), ("kinds", 4000)]
-Q10 = [("timers", 30000), ("restart", 6000), ("handles", 6000), ("kinds", 6000), ("lifecycle", 4000)]
+Q10 = [("timers", 30000), ("restart", 6000), ("handles", 6000), ("kinds", 6000), ("lifecycle", 4000), ("timeout", 10000), ("backpressure", 6000)]
 Q11 = [("timeout", 40000)]
 Q13 = [("stream", 30000), ("lifecycle", 10000), ("owning", 6000)]
-Q14 = [("liveness", 30000), ("lifecycle", 10000), ("handles", 6000)]
+Q14 = [("liveness", 30000), ("lifecycle", 10000), ("handles", 6000), ("faults+faults", 200)]
 Q15 = [("kinds", 30000), ("handles", 12000), ("restart", 4000), ("lifecycle", 4000)]
 
 Q06 = [("faults+faults", 700), ("tree+faults", 500), ("svcfaults+faults", 300), ("lifecycle+faults", 300), ("timeout", 8000)]
@@ -95,7 +95,7 @@ PLANS = {
                 mt=[('restart', 480)], mt_required=['L2:C07.R2.incarnation_of_message', 'L2:C07.R3.strategy_model']),
     "C10": plan(Q10, scale(Q10, 40),
                 "a periodic timer delivered at least twice, or an actor terminated while its timers were pending",
-                ["C10.R1.not_before_period", "C10.R2.exact_schedule", "C10.R3.delayed_at_most_once", "C10.R4.nothing_after_end",
+                ["C10.R1.not_before_period", "C10.R1.interval_with_spacing", "C10.R2.interval_count_on_busy_actor", "C10.R2.exact_schedule", "C10.R3.delayed_at_most_once", "C10.R4.nothing_after_end",
                  "C10.R5.timers_do_not_prolong", "C10.R6.timer_tasks_end"],
                 mt=[('timers', 480)], mt_required=['L2:C10.R1.not_before_period', 'L2:C10.R3.delayed_at_most_once']),
     "C11": plan(Q11, scale(Q11, 40),
